@@ -124,7 +124,8 @@ func c03Evaluate(ctx *Ctx, root string, cfg wrConfig, before, after map[string]f
 		if ans[i] == "1" {
 			ok[p.rel] = true
 		} else if ans[i] != "0" {
-			return ev, fmt.Errorf("oracle answered %q", ans[i])
+			os.WriteFile(filepath.Join(os.TempDir(), "c03-oracle-exc.txt"), []byte(reqs[i]+"\n"), 0o644)
+			return ev, fmt.Errorf("oracle answered %q for %s (%d entries, %d bytes; %s)", ans[i], p.rel, len(p.entries), len(before[p.rel].Data), cfg.String())
 		}
 	}
 	for i, p := range pend {
@@ -542,4 +543,12 @@ func replayC03(ctx *Ctx, rep map[string]any) *Result {
 	return res
 }
 
-func init() { register("C03", runC03, replayC03) }
+func init() {
+	register("C03", runC03, replayC03)
+	// whole-run part only (debug aid): vharness run tool-c03-whole tier=... seed=...
+	register("tool-c03-whole", func(ctx *Ctx) *Result {
+		res := &Result{}
+		c03Whole(ctx, res, NewRng(ctx.Seed).Fork().Fork())
+		return res
+	}, nil)
+}
